@@ -266,6 +266,9 @@ fn check_options(
                 if strict {
                     issues.push(format!("option {code}: well-formed option data rejected"));
                 }
+                // malformed option data (damaged input): what the iterator
+                // does after reporting the error is not judged
+                break;
             }
             None => {
                 issues.push("option iterator ended before the options did".into());
